@@ -107,12 +107,17 @@ def ensure_so(name):
     return out
 
 
-def ensure_harness(name, variant="std", libs=("dtoolbase",), extra=(), compiler=None, san=None):
+def ensure_harness(name, variant="std", libs=("dtoolbase",), extra=(), compiler=None, san=None, pre=None):
     """Compile harness/<name>.cxx against the libraries of the current tree."""
     bd = build.ensure(variant)
     src = os.path.join(HARNESS, name + ".cxx")
     out = os.path.join(bd, "verif-" + name)
-    deps = [src] + [os.path.join(bd, "lib", "lib%s.a" % l) for l in libs if os.path.exists(os.path.join(bd, "lib", "lib%s.a" % l))]
+    gen = os.path.join(bd, "verif-gen")
+    os.makedirs(gen, exist_ok=True)
+    deps = [src]
+    if pre:
+        deps += pre(gen)
+    deps = deps + [os.path.join(bd, "lib", "lib%s.a" % l) for l in libs if os.path.exists(os.path.join(bd, "lib", "lib%s.a" % l))]
     if _newer(out, deps):
         return out
     with _lock(name + "-" + variant):
@@ -123,7 +128,7 @@ def ensure_harness(name, variant="std", libs=("dtoolbase",), extra=(), compiler=
         if san is None:
             san = {"std": [], "asan": ["-fsanitize=address,undefined", "-fno-sanitize-recover=undefined"],
                    "fuzz": ["-fsanitize=fuzzer,address,undefined", "-fno-sanitize-recover=undefined"]}[variant]
-        inc = []
+        inc = ["-I", gen]
         for d in build.include_dirs(variant):
             inc += ["-I", d]
         libargs = []
